@@ -177,6 +177,8 @@ def run(ctx: Ctx):
     col.ob("G12", "S3", "_rl.py::time_distributed_return::discount=gamma^exp", okd, "discounts are not powers of gamma", "_rl.py", tdr.line)
     # ---- S4 feat_deltas: each dimension argument is normalised against the rank of the tensor it indexes -----------
     _delta_dims(ctx)
+    # ---- S5 store refuses exactly the counts for which a divisor on its path is zero ------------------------------
+    _store_threshold(ctx)
     plumbing(ctx, "S2")
     return dict(
         explanation=(
@@ -188,10 +190,12 @@ def run(ctx: Ctx):
             "the statistics command builds MeanVarianceNormalization(dim), accumulates every tensor once and stores with "
             "the requested Bessel flag; (S3) gamma == 0 returns the rewards themselves and the two layouts are transposes. "
             "(S4) in feat_deltas the negative forms of `time_dim` / `dim` are resolved against the rank of the input / of "
-            "the output (input rank + 1 when stacking), and the range checks use the same rank. "
+            "the output (input rank + 1 when stacking), and the range checks use the same rank; (S5) store raises exactly "
+            "below the smallest count for which every divisor on its path is non-zero (1 without, 2 with Bessel's "
+            "correction) [F23 repaired]. "
             "NOT decided: delta filter values and dimension shuffling, the triangular discount product values, unit "
             "variance after normalisation (floating point)."),
-        decided=["S1", "S2", "S3", "S4"],
+        decided=["S1", "S2", "S3", "S4", "S5"],
         not_decided=["delta filter values / layout", "discount matrix values", "zero mean / unit variance numerically"],
         assumptions=["exact (real) arithmetic for partition invariance; double precision accumulation is trusted"],
     )
@@ -271,11 +275,86 @@ def _delta_dims(ctx: Ctx):
     col.floor("delta_dim_obligations", n_ok, 4)
 
 
+def _store_threshold(ctx: Ctx):
+    """S5: store is specialised for bessel in (True, False); the count below which it raises must be the smallest count
+    for which every divisor on the path is non-zero (population statistics: count >= 1; Bessel: count - 1 >= 1)."""
+    from sa.defuse import ReachingDefs
+    from sa.norm import Normalizer, const_of, padd
+    from sa.specialise import specialise
+    col, pkg = ctx.col, ctx.pkg
+    f = pkg.func("_feats::MeanVarianceNormalization.store")
+    rel = f.module.relname
+    for bessel in (True, False):
+        node, folded = specialise(f.node, {"bessel": bessel})
+        if folded < 1:
+            raise AnalysisError("C18: store no longer branches on `bessel`")
+        rd = ReachingDefs(node)
+
+        def is_count(e):
+            if isinstance(e, ast.Attribute) and u(e) == "self.count":
+                return True
+            if isinstance(e, ast.Name):
+                ds = list(rd.defs_of(e))
+                if len(ds) != 1:
+                    return False
+                d = ds[0]
+                v = d.value
+                if d.kind == "unpack" and isinstance(v, ast.Tuple) and d.slot and len(d.slot) == 1 and d.slot[0] < len(v.elts):
+                    v = v.elts[d.slot[0]]
+                return isinstance(v, ast.Attribute) and u(v) == "self.count"
+            return False
+        # divisors linear in the count
+        need = 0
+        divisors = []
+        for n in ast.walk(node):
+            den = None
+            if isinstance(n, ast.BinOp) and isinstance(n.op, ast.Div):
+                den = n.right
+            elif isinstance(n, ast.AugAssign) and isinstance(n.op, ast.Div):
+                den = n.value
+            if den is None:
+                continue
+            cnt = [x for x in ast.walk(den) if is_count(x) and not (isinstance(x, ast.Attribute) and False)]
+            if not cnt:
+                continue
+            nz = Normalizer()
+            c = const_of(padd(nz.poly(den), nz.poly(cnt[0]), -1))
+            if c is None:
+                col.undecided(f"C18: divisor `{u(den)}` in store is not count + constant")
+                continue
+            divisors.append(u(den))
+            need = max(need, 1 - int(c))
+        ths = []
+        for n in ast.walk(node):
+            if isinstance(n, ast.If) and any(isinstance(x, ast.Raise) for x in n.body) and isinstance(n.test, ast.Compare) \
+                    and len(n.test.ops) == 1 and is_count(n.test.left) and not isinstance(n.test.ops[0], (ast.Is, ast.IsNot)):
+                k = n.test.comparators[0]
+                kv = k.value if isinstance(k, ast.Constant) else None
+                if isinstance(n.test.ops[0], ast.Lt) and isinstance(kv, int):
+                    ths.append(kv)
+                elif isinstance(n.test.ops[0], ast.LtE) and isinstance(kv, int):
+                    ths.append(kv + 1)
+                else:
+                    col.undecided(f"C18: refusal test `{u(n.test)}` of store")
+        if not divisors:
+            raise AnalysisError("C18: store divides by nothing that depends on the count")
+        got = max(ths) if ths else 0
+        col.ob("G12", "S5", f"{rel}::MeanVarianceNormalization.store::refuses-exactly-undefined-counts[bessel={bessel}]",
+               got == need,
+               f"with bessel={bessel} the divisors on the path are {sorted(set(divisors))}: the statistics are defined from "
+               f"{need} accumulated frame(s) on, but store raises below {got} "
+               f"({'refuses data whose pooled statistics exist - the docstring promises one frame suffices without Bessel correction' if got > need else 'divides by zero'})",
+               rel, f.line, sample=dict(divisors=sorted(set(divisors)), raises_below=got, defined_from=need))
+
+
 def _mutants():
     from selftest.mutate import Mutant as M
     _extra = [
         M("dim-resolved-before-stack-rank", "_feats.py", "if not concatenate:\n        D += 1", "dim = (dim + D) % D\n    if not concatenate:\n        D += 1", "dim-resolved-against-output-rank"),
         M("time-dim-against-output-rank", "_feats.py", "time_dim = (time_dim + D) % D\n    if not concatenate:\n        D += 1", "if not concatenate:\n        D += 1\n    time_dim = (time_dim + D) % D", "time_dim-resolved-against-input-rank"),
+        M("store-needs-two-frames", "_feats.py", "if count < (2 if bessel else 1):", "if count < 2:", "refuses-exactly-undefined-counts[bessel=False]"),
+        M("store-divides-by-zero", "_feats.py", "if count < (2 if bessel else 1):", "if count < 1:", "refuses-exactly-undefined-counts[bessel=True]"),
+        M("twin:threshold-by-lte", "_feats.py", "if count < (2 if bessel else 1):", "if count <= (1 if bessel else 0):", "", twin=True),
         M("twin:dim-resolved-by-if", "_feats.py", "dim = (dim + D) % D", "if dim < 0:\n        dim += D", "", twin=True),
     ]
     F = "_feats.py"
